@@ -12,13 +12,14 @@ namespace V
 
 /-- kinds of `VaporettoError` / decode errors, as canonicalised by the harness -/
 inductive Err
-  | invalidArgument | invalidModel | decode | io | utf8 | fuel
+  | invalidArgument | invalidModel | decode | encode | io | utf8 | fuel
 deriving DecidableEq, Repr, Inhabited
 
 def Err.toString : Err → String
   | .invalidArgument => "invalid_argument"
   | .invalidModel => "invalid_model"
   | .decode => "decode"
+  | .encode => "encode"
   | .io => "io"
   | .utf8 => "utf8"
   | .fuel => "fuel"
